@@ -225,6 +225,16 @@ def fault_worker(args):
                 try:
                     if S[NCALLS - 1] != S[4]:
                         raise Failure("process state keeps changing while an I/O call fails: " + what, diff_state(S[4], S[NCALLS - 1]), None, key="fault-state")
+                    dres = diff_state(S[2], S[NCALLS - 1])
+                    if not dict(p.split(b"=", 1) for p in S[NCALLS - 1].split(b";") if b"=" in p).get(b"fds"):
+                        # the persistent fault also hit the harness's own listing of /proc/self/fd: that field was not read, not changed
+                        dres.pop("fds_only_before", None)
+                        dres.pop("fds_only_after", None)
+                    if dres:
+                        # (S[2] = before the 3rd call, the first one that meets the fault: a failing call leaves as little behind as a
+                        # succeeding one -- a timer left armed, a handler not put back, a descriptor kept)
+                        raise Failure("process state after calls in which an I/O call failed differs from the state before the first of them: " + what,
+                                      dres, None, key="fault-residue")
                     if H[7] > H[6] > H[5] > H[4]:
                         raise Failure("live heap grows with every call while an I/O call fails: " + what, {"heap_before_calls_5_to_8": H[4:]}, None, key="fault-growth")
                 except Failure as f:
@@ -281,6 +291,8 @@ def main():
     pbt.run(ctx, builds, strategy, evaluate, classify, nw, per, sample=sample, fixed_cases=fixed,
             driver_kwargs={"binds": [(v, k) for k, v in sorted(C12.SYSFILES.items())]})
     if not ctx.replay:
+        import trace
+        trace.BINDS[:] = [(v, k) for k, v in sorted(C12.SYSFILES.items())]
         fault_phase(ctx, builds["ts-plain"])
     ctx.finish()
 
